@@ -41,36 +41,47 @@ func fromRef(r ref.M3) matrix.Matrix3 {
 type Prim struct {
 	Name       string     `json:"name,omitempty"`
 	R, G, B, W [2]float32 // chromaticities as float32 (what the API takes)
+	WY         float32    `json:"white_luminance,omitempty"` // luminance of the white point (0 means 1)
+}
+
+func (p Prim) wy() float32 {
+	if p.WY == 0 {
+		return 1
+	}
+	return p.WY
 }
 
 type MatCase struct {
 	Op string        `json:"op"`
+	// Exp10: the matrices A and B (and V) are multiplied by 10^Exp10 before the call, so that well-conditioned
+	// matrices of very small or very large magnitude are covered (the oracle is relative)
+	Exp10 int `json:"exp10,omitempty"`
 	A  [3][3]float64 `json:"a"` // row-major
 	B  [3][3]float64 `json:"b,omitempty"`
 	V  [3]float64    `json:"v,omitempty"`
 }
 
 var published = []Prim{
-	{"sRGB/Rec.709", [2]float32{0.64, 0.33}, [2]float32{0.30, 0.60}, [2]float32{0.15, 0.06}, [2]float32{0.3127, 0.3290}},
-	{"Adobe RGB (1998)", [2]float32{0.64, 0.33}, [2]float32{0.21, 0.71}, [2]float32{0.15, 0.06}, [2]float32{0.3127, 0.3290}},
-	{"ProPhoto/ROMM", [2]float32{0.7347, 0.2653}, [2]float32{0.1596, 0.8404}, [2]float32{0.0366, 0.0001}, [2]float32{0.3457, 0.3585}},
-	{"Display P3", [2]float32{0.68, 0.32}, [2]float32{0.265, 0.69}, [2]float32{0.15, 0.06}, [2]float32{0.3127, 0.3290}},
-	{"DCI-P3", [2]float32{0.68, 0.32}, [2]float32{0.265, 0.69}, [2]float32{0.15, 0.06}, [2]float32{0.314, 0.351}},
-	{"Rec.2020", [2]float32{0.708, 0.292}, [2]float32{0.170, 0.797}, [2]float32{0.131, 0.046}, [2]float32{0.3127, 0.3290}},
-	{"NTSC 1953", [2]float32{0.67, 0.33}, [2]float32{0.21, 0.71}, [2]float32{0.14, 0.08}, [2]float32{0.3101, 0.3162}},
-	{"PAL/SECAM", [2]float32{0.64, 0.33}, [2]float32{0.29, 0.60}, [2]float32{0.15, 0.06}, [2]float32{0.3127, 0.3290}},
-	{"SMPTE-C", [2]float32{0.63, 0.34}, [2]float32{0.31, 0.595}, [2]float32{0.155, 0.07}, [2]float32{0.3127, 0.3290}},
-	{"Apple RGB", [2]float32{0.625, 0.34}, [2]float32{0.28, 0.595}, [2]float32{0.155, 0.07}, [2]float32{0.3127, 0.3290}},
-	{"ECI RGB v2", [2]float32{0.67, 0.33}, [2]float32{0.21, 0.71}, [2]float32{0.14, 0.08}, [2]float32{0.3457, 0.3585}},
-	{"Wide Gamut RGB", [2]float32{0.735, 0.265}, [2]float32{0.115, 0.826}, [2]float32{0.157, 0.018}, [2]float32{0.3457, 0.3585}},
-	{"CIE RGB", [2]float32{0.735, 0.265}, [2]float32{0.274, 0.717}, [2]float32{0.167, 0.009}, [2]float32{1.0 / 3, 1.0 / 3}},
-	{"ColorMatch RGB", [2]float32{0.63, 0.34}, [2]float32{0.295, 0.605}, [2]float32{0.15, 0.075}, [2]float32{0.3457, 0.3585}},
-	{"Best RGB", [2]float32{0.7347, 0.2653}, [2]float32{0.215, 0.775}, [2]float32{0.13, 0.035}, [2]float32{0.3457, 0.3585}},
-	{"Beta RGB", [2]float32{0.6888, 0.3112}, [2]float32{0.1986, 0.7551}, [2]float32{0.1265, 0.0352}, [2]float32{0.3457, 0.3585}},
-	{"Bruce RGB", [2]float32{0.64, 0.33}, [2]float32{0.28, 0.65}, [2]float32{0.15, 0.06}, [2]float32{0.3127, 0.3290}},
-	{"Don RGB 4", [2]float32{0.696, 0.3}, [2]float32{0.215, 0.765}, [2]float32{0.13, 0.035}, [2]float32{0.3457, 0.3585}},
-	{"Ekta Space PS5", [2]float32{0.695, 0.305}, [2]float32{0.26, 0.7}, [2]float32{0.11, 0.005}, [2]float32{0.3457, 0.3585}},
-	{"ACEScg AP1", [2]float32{0.713, 0.293}, [2]float32{0.165, 0.830}, [2]float32{0.128, 0.044}, [2]float32{0.32168, 0.33767}},
+	{"sRGB/Rec.709", [2]float32{0.64, 0.33}, [2]float32{0.30, 0.60}, [2]float32{0.15, 0.06}, [2]float32{0.3127, 0.3290}, 0},
+	{"Adobe RGB (1998)", [2]float32{0.64, 0.33}, [2]float32{0.21, 0.71}, [2]float32{0.15, 0.06}, [2]float32{0.3127, 0.3290}, 0},
+	{"ProPhoto/ROMM", [2]float32{0.7347, 0.2653}, [2]float32{0.1596, 0.8404}, [2]float32{0.0366, 0.0001}, [2]float32{0.3457, 0.3585}, 0},
+	{"Display P3", [2]float32{0.68, 0.32}, [2]float32{0.265, 0.69}, [2]float32{0.15, 0.06}, [2]float32{0.3127, 0.3290}, 0},
+	{"DCI-P3", [2]float32{0.68, 0.32}, [2]float32{0.265, 0.69}, [2]float32{0.15, 0.06}, [2]float32{0.314, 0.351}, 0},
+	{"Rec.2020", [2]float32{0.708, 0.292}, [2]float32{0.170, 0.797}, [2]float32{0.131, 0.046}, [2]float32{0.3127, 0.3290}, 0},
+	{"NTSC 1953", [2]float32{0.67, 0.33}, [2]float32{0.21, 0.71}, [2]float32{0.14, 0.08}, [2]float32{0.3101, 0.3162}, 0},
+	{"PAL/SECAM", [2]float32{0.64, 0.33}, [2]float32{0.29, 0.60}, [2]float32{0.15, 0.06}, [2]float32{0.3127, 0.3290}, 0},
+	{"SMPTE-C", [2]float32{0.63, 0.34}, [2]float32{0.31, 0.595}, [2]float32{0.155, 0.07}, [2]float32{0.3127, 0.3290}, 0},
+	{"Apple RGB", [2]float32{0.625, 0.34}, [2]float32{0.28, 0.595}, [2]float32{0.155, 0.07}, [2]float32{0.3127, 0.3290}, 0},
+	{"ECI RGB v2", [2]float32{0.67, 0.33}, [2]float32{0.21, 0.71}, [2]float32{0.14, 0.08}, [2]float32{0.3457, 0.3585}, 0},
+	{"Wide Gamut RGB", [2]float32{0.735, 0.265}, [2]float32{0.115, 0.826}, [2]float32{0.157, 0.018}, [2]float32{0.3457, 0.3585}, 0},
+	{"CIE RGB", [2]float32{0.735, 0.265}, [2]float32{0.274, 0.717}, [2]float32{0.167, 0.009}, [2]float32{1.0 / 3, 1.0 / 3}, 0},
+	{"ColorMatch RGB", [2]float32{0.63, 0.34}, [2]float32{0.295, 0.605}, [2]float32{0.15, 0.075}, [2]float32{0.3457, 0.3585}, 0},
+	{"Best RGB", [2]float32{0.7347, 0.2653}, [2]float32{0.215, 0.775}, [2]float32{0.13, 0.035}, [2]float32{0.3457, 0.3585}, 0},
+	{"Beta RGB", [2]float32{0.6888, 0.3112}, [2]float32{0.1986, 0.7551}, [2]float32{0.1265, 0.0352}, [2]float32{0.3457, 0.3585}, 0},
+	{"Bruce RGB", [2]float32{0.64, 0.33}, [2]float32{0.28, 0.65}, [2]float32{0.15, 0.06}, [2]float32{0.3127, 0.3290}, 0},
+	{"Don RGB 4", [2]float32{0.696, 0.3}, [2]float32{0.215, 0.765}, [2]float32{0.13, 0.035}, [2]float32{0.3457, 0.3585}, 0},
+	{"Ekta Space PS5", [2]float32{0.695, 0.305}, [2]float32{0.26, 0.7}, [2]float32{0.11, 0.005}, [2]float32{0.3457, 0.3585}, 0},
+	{"ACEScg AP1", [2]float32{0.713, 0.293}, [2]float32{0.165, 0.830}, [2]float32{0.128, 0.044}, [2]float32{0.32168, 0.33767}, 0},
 }
 
 func xyY(c [2]float32) ciexyy.Color { return ciexyy.Color{X: c[0], Y: c[1], YY: 1} }
@@ -79,8 +90,10 @@ func refXY(c [2]float32) ref.XY     { return ref.XY{X: float64(c[0]), Y: float64
 func checkPrim(p Prim) (kind, what string, cond float64) {
 	var to, from matrix.Matrix3
 	if pn, msg := ev.Guard(func() {
-		to = ciexyz.TransformToXYZForXYYPrimaries(xyY(p.R), xyY(p.G), xyY(p.B), xyY(p.W))
-		from = ciexyz.TransformFromXYZForXYYPrimaries(xyY(p.R), xyY(p.G), xyY(p.B), xyY(p.W))
+		w := xyY(p.W)
+		w.YY = p.wy()
+		to = ciexyz.TransformToXYZForXYYPrimaries(xyY(p.R), xyY(p.G), xyY(p.B), w)
+		from = ciexyz.TransformFromXYZForXYYPrimaries(xyY(p.R), xyY(p.G), xyY(p.B), w)
 	}); pn {
 		return "panic", msg, 0
 	}
@@ -90,9 +103,16 @@ func checkPrim(p Prim) (kind, what string, cond float64) {
 		return "harness", "degenerate reference", 0
 	}
 	cond = want.Cond()
-	tol := 1e-6 * cond
+	// a white of luminance Y scales the whole matrix by Y (and its inverse by 1/Y)
+	wy := float64(p.wy())
+	for i := range want {
+		for j := range want[i] {
+			want[i][j] *= wy
+		}
+	}
+	tol := 1e-6 * cond * wy
 	w := T.MulV(ref.V3{1, 1, 1})
-	ww := ref.XYZOf(refXY(p.W), 1)
+	ww := ref.XYZOf(refXY(p.W), wy)
 	for i := 0; i < 3; i++ {
 		if !(math.Abs(w[i]-ww[i]) <= tol) {
 			return "white", fmt.Sprintf("M*(1,1,1) = %v, white XYZ %v (tol %.3g)", w, ww, tol), cond
@@ -103,14 +123,15 @@ func checkPrim(p Prim) (kind, what string, cond float64) {
 		e[j] = 1
 		x := T.MulV(e)
 		s := x[0] + x[1] + x[2]
-		if !(math.Abs(x[0]/s-float64(pc[0])) <= tol) || !(math.Abs(x[1]/s-float64(pc[1])) <= tol) {
+		tolC := 1e-6 * cond // chromaticities do not scale with the white's luminance
+		if !(math.Abs(x[0]/s-float64(pc[0])) <= tolC) || !(math.Abs(x[1]/s-float64(pc[1])) <= tolC) {
 			return "primary", fmt.Sprintf("unit primary %d maps to chromaticity (%.9g,%.9g), want (%.9g,%.9g)", j, x[0]/s, x[1]/s, pc[0], pc[1]), cond
 		}
 	}
 	// matrix agrees with the independent derivation (prism converts xyY->XYZ in float32, so allow float32 relative error times cond)
 	for i := 0; i < 3; i++ {
 		for j := 0; j < 3; j++ {
-			if !(math.Abs(T[i][j]-want[i][j]) <= 1e-6*cond*(1+math.Abs(want[i][j]))) {
+			if !(math.Abs(T[i][j]-want[i][j]) <= 1e-6*cond*(wy+math.Abs(want[i][j]))) {
 				return "matrix", fmt.Sprintf("RGB->XYZ[%d][%d] = %.10g, reference %.10g (cond %.3g)", i, j, T[i][j], want[i][j], cond), cond
 			}
 		}
@@ -133,6 +154,17 @@ func relClose(a, b, scale float64) bool {
 }
 
 func checkMat(c MatCase) (kind, what string) {
+	if c.Exp10 != 0 {
+		f := math.Pow(10, float64(c.Exp10))
+		for i := range c.A {
+			for j := range c.A[i] {
+				c.A[i][j] *= f
+				c.B[i][j] *= f
+			}
+			c.V[i] *= f
+		}
+		c.Exp10 = 0
+	}
 	A, B := ref.M3(c.A), ref.M3(c.B)
 	a, b := fromRef(A), fromRef(B)
 	switch c.Op {
@@ -226,7 +258,8 @@ func TestC20(t *testing.T) {
 	}
 	ev.Rule("(a) 20 published RGB spaces; (b) rapid triangles inside the chromaticity diagram with area >= 0.01 and white = barycentric mix with weights >= 0.05; (c) rapid 3x3 matrices with entries in [-4,4], |det| >= 1e-3; (d) exactly singular small-integer matrices (zero/repeated column or row, integer linear dependence). non-trivial = generated triangle (not a built-in space) or matrix with condition number > 10")
 	ev.Assume("internal/ref row-major Gauss-Jordan algebra")
-	for _, p := range published {
+	for _, p := range append(append([]Prim(nil), published...), Prim{Name: "sRGB, white Y=5e-4", R: published[0].R, G: published[0].G, B: published[0].B, W: published[0].W, WY: 5e-4},
+		Prim{Name: "Rec.2020, white Y=100", R: published[5].R, G: published[5].G, B: published[5].B, W: published[5].W, WY: 100}) {
 		ev.Eval(1)
 		ev.NT(ev.Hash("pub", p.Name))
 		k, w, cond := checkPrim(p)
@@ -264,6 +297,9 @@ func TestC20(t *testing.T) {
 			rt.Skip("white weight")
 		}
 		p.W = [2]float32{float32(w1*float64(p.R[0]) + w2*float64(p.G[0]) + w3*float64(p.B[0])), float32(w1*float64(p.R[1]) + w2*float64(p.G[1]) + w3*float64(p.B[1]))}
+		if rapid.IntRange(0, 3).Draw(rt, "dimwhite") == 0 {
+			p.WY = float32(math.Pow(10, rapid.Float64Range(-6, 3).Draw(rt, "whiteexp")))
+		}
 		ev.Eval(1)
 		ev.NT(ev.Hash("tri", p))
 		k, w, cond := checkPrim(p)
@@ -288,6 +324,9 @@ func TestC20(t *testing.T) {
 			return m
 		}
 		c := MatCase{Op: op}
+		if rapid.IntRange(0, 2).Draw(rt, "scaled") == 0 {
+			c.Exp10 = rapid.IntRange(-12, 12).Draw(rt, "exp10")
+		}
 		c.A = gen("a")
 		if op == "inverse" {
 			for tries := 0; math.Abs(ref.M3(c.A).Det()) < 1e-3; tries++ {
